@@ -398,7 +398,7 @@ func TestC21(t *testing.T) {
 		t.Skip()
 	}
 
-	kit.SetChecks(4_000, 40_000)
+	kit.SetChecks(8_000, 60_000)
 	rapid.Check(t, func(rt *rapid.T) { c := genC21(rt); run(rt, c) })
 }
 
